@@ -172,3 +172,11 @@ class Pairs(Case):
 
 for c in (RoundTrip, Pairs):
     register(c())
+
+
+# ---- lemmas for the stubs this check relies on (see props.common.Borrowed) ----
+from props.common import Borrowed, REGISTRY
+from props import c01 as _c01
+register(Borrowed(REGISTRY['C01.reverse_byte'], 'C03', 'reverse_byte'))
+from props import c02 as _c02
+register(Borrowed(REGISTRY['C02.leaf'], 'C03', 'cipher_leaves', keep=lambda sh: sh.get('fn') in ('aes.S', 'aes.Si', 'aes.gmulc', 'des.S', 'serpent.S', 'serpent.Si')))
